@@ -157,26 +157,42 @@ Proof.
   unfold idiv_u, imod_u in *. destruct (idivmod_u a b) as [[q r]|]; simpl in *; [|discriminate].
   congruence.
 Qed.
-(* y is the Python value of the divisor (signed or unsigned reading), positive *)
-Lemma idiv_s_ok a b y : word a -> word b -> cong y b -> 0 < y < H64 ->
-  idiv_s a b = Some (wrap_u (to_s a / y)).
+(* x, y: the Python values of dividend and divisor; the divisor positive *)
+Lemma idiv_s_ok a b x y : word a -> word b -> to_s a = x -> cong y b -> 0 < y < H64 ->
+  idiv_s a b = Some (wrap_u (x / y)).
 Proof.
-  intros Ha Hb E Hy. assert (b = y) as ->.
+  intros Ha Hb <- E Hy. assert (b = y) as ->.
   { unfold cong in E. rewrite (wrap_u_id b Hb) in E. rewrite <- E. apply wrap_u_id. unfold word. rewrite M64_H64. lia. }
   unfold idiv_s, idivmod_s. destruct (y =? 0) eqn:E0; [lia|]. reflexivity.
 Qed.
-Lemma imod_s_ok a b y : word a -> word b -> cong y b -> 0 < y < H64 ->
-  imod_s a b = Some (wrap_u (to_s a mod y)).
+Lemma imod_s_ok a b x y : word a -> word b -> to_s a = x -> cong y b -> 0 < y < H64 ->
+  imod_s a b = Some (wrap_u (x mod y)).
 Proof.
-  intros Ha Hb E Hy. assert (b = y) as ->.
+  intros Ha Hb <- E Hy. assert (b = y) as ->.
   { unfold cong in E. rewrite (wrap_u_id b Hb) in E. rewrite <- E. apply wrap_u_id. unfold word. rewrite M64_H64. lia. }
   unfold imod_s, idivmod_s. destruct (y =? 0) eqn:E0; [lia|]. simpl. f_equal.
   symmetry. apply wrap_u_id. unfold word. pose proof (Z.mod_pos_bound (to_s a) y). rewrite M64_H64. lia.
 Qed.
-Lemma idivmod_s_ok a b y : word a -> word b -> cong y b -> 0 < y < H64 ->
-  idivmod_s a b = Some (wrap_u (to_s a / y), wrap_u (to_s a mod y)).
+Lemma idivmod_s_ok a b x y : word a -> word b -> to_s a = x -> cong y b -> 0 < y < H64 ->
+  idivmod_s a b = Some (wrap_u (x / y), wrap_u (x mod y)).
 Proof.
-  intros Ha Hb E Hy. pose proof (idiv_s_ok a b y Ha Hb E Hy) as H1. pose proof (imod_s_ok a b y Ha Hb E Hy) as H2.
+  intros Ha Hb Ex E Hy. pose proof (idiv_s_ok a b x y Ha Hb Ex E Hy) as H1. pose proof (imod_s_ok a b x y Ha Hb Ex E Hy) as H2.
+  unfold idiv_s, imod_s in *. destruct (idivmod_s a b) as [[q r]|]; simpl in *; [|discriminate].
+  congruence.
+Qed.
+
+(* the divisor is a nat: it is read unsigned, which is its Python value, whatever its size *)
+Lemma idiv_s_un a b : word a -> word b -> b <> 0 -> idiv_s a b = Some (wrap_u (to_s a / b)).
+Proof. intros Ha Hb Hz. unfold idiv_s, idivmod_s. destruct (b =? 0) eqn:E0; [lia|]. reflexivity. Qed.
+Lemma imod_s_un a b : word a -> word b -> b <> 0 -> imod_s a b = Some (wrap_u (to_s a mod b)).
+Proof.
+  intros Ha Hb Hz. unfold imod_s, idivmod_s. destruct (b =? 0) eqn:E0; [lia|]. simpl. f_equal.
+  symmetry. apply wrap_u_id. unfold word in *. pose proof (Z.mod_pos_bound (to_s a) b). lia.
+Qed.
+Lemma idivmod_s_un a b : word a -> word b -> b <> 0 ->
+  idivmod_s a b = Some (wrap_u (to_s a / b), wrap_u (to_s a mod b)).
+Proof.
+  intros Ha Hb Hz. pose proof (idiv_s_un a b Ha Hb Hz) as H1. pose proof (imod_s_un a b Ha Hb Hz) as H2.
   unfold idiv_s, imod_s in *. destruct (idivmod_s a b) as [[q r]|]; simpl in *; [|discriminate].
   congruence.
 Qed.
@@ -195,3 +211,11 @@ Lemma is_to_u_ok a : word a -> 0 <= to_s a -> is_to_u a = Some (wrap_u (to_s a))
 Proof.
   intros Ha H. unfold is_to_u. destruct (to_s a <? 0) eqn:E; [lia|]. f_equal. symmetry. apply wrap_u_to_s. assumption.
 Qed.
+
+Lemma is_to_u_small a : word a -> srange a -> is_to_u a = Some (wrap_u a).
+Proof.
+  intros Ha Hs. unfold is_to_u. rewrite to_s_small by (unfold word, srange in *; lia).
+  destruct (a <? 0) eqn:E; [unfold word in *; lia|]. f_equal. symmetry. apply wrap_u_id. assumption.
+Qed.
+Lemma abs_nat_ok a : word a -> a = wrap_u (Z.abs a).
+Proof. intros Ha. rewrite Z.abs_eq by (unfold word in *; lia). symmetry. apply wrap_u_id. assumption. Qed.
